@@ -22,6 +22,7 @@ def main():
         from harness import lm_sim                     # noqa
         from harness import staging_sim                # noqa
         from harness import script_sim                 # noqa
+        from harness import wait_sim                   # noqa
         fn = builders.BUILDERS.get(case['function'])
         if fn is None:
             out = dict(confirmed=None,
